@@ -332,3 +332,15 @@ package types
 //@ func MediaTypeIndex(mt string) (ok bool)
 //@   props C04
 //@   ensures ok <==> (mt == MediaTypeDocker2ManifestList || mt == MediaTypeOCI1ManifestList)
+
+//@ -- the descriptor that goes into a referrers response is taken from the manifest itself (C07, C17): its size is the
+//@ -- size of the bytes, the artifact type is the manifest's (falling back to the config media type), the annotations
+//@ -- are the manifest's, the subject is the one the manifest names; what the caller passed in only supplies defaults
+//@ func ManifestReferrerDescriptor(raw []byte, d Descriptor) (subject Descriptor, rd Descriptor, err error)
+//@   props C07 C17
+//@   ensures [size-is-real]{C07,C17} err == nil ==> rd.Size == len(raw)
+//@   ensures [digest-kept-or-computed]{C07,C17} err == nil ==> rd.Digest != "" && (d.Digest != "" ==> rd.Digest == d.Digest)
+//@   ensures [artifact-type-from-manifest]{C07,C17} err == nil ==> (referrer.ArtifactType != "" ==> rd.ArtifactType == referrer.ArtifactType) &&
+//@             (referrer.ArtifactType == "" && referrer.Config != nil ==> rd.ArtifactType == referrer.Config.MediaType)
+//@   ensures [annotations-from-manifest]{C07,C17} err == nil ==> rd.Annotations == referrer.Annotations
+//@   ensures [subject-from-manifest]{C07,C17} err == nil ==> referrer.Subject != nil && subject.Digest == referrer.Subject.Digest && subject.Digest != ""
